@@ -680,10 +680,16 @@ def check_optimizers_live(w: World, agent, cls_prefix: str, when: str) -> None:
         if want != have:
             ctx_msg = f"{when}: optimizer '{cfg_o.name}' holds {len(have)} parameters of which {len(have - want)} are not live parameters of {wpr.network_names}; {len(want - have)} live parameters are not optimised"
             w.ctx.report(f"{cls_prefix}/optimizer_stale_params", ctx_msg, optimizer=cfg_o.name, **w.loc)
-        lr_now = getattr(agent, wpr.lr_name)
+        # which learning rate an optimizer belongs to is decided here from its name (actor_optimizer(s) -> lr_actor, critic_*_optimizer(s) -> lr_critic,
+        # anything else -> lr), not taken from what the wrapper inferred for itself
+        own = "lr_actor" if "actor" in cfg_o.name and hasattr(agent, "lr_actor") else "lr_critic" if "critic" in cfg_o.name and hasattr(agent, "lr_critic") else wpr.lr_name
+        if own != wpr.lr_name:
+            w.ctx.report(f"{cls_prefix}/optimizer_stale_lr", f"{when}: optimizer '{cfg_o.name}' is registered under agent.{wpr.lr_name}, it trains {wpr.network_names} whose learning rate "
+                                                              f"is agent.{own}: a mutation of either one reaches the wrong optimizer", optimizer=cfg_o.name, **w.loc)
+        lr_now = getattr(agent, own)
         lrs = [g["lr"] for o in A.torch_optims(wpr) for g in o.param_groups]
         if any(abs(float(x) - float(lr_now)) > 1e-12 * max(1.0, abs(float(lr_now))) for x in lrs):
-            w.ctx.report(f"{cls_prefix}/optimizer_stale_lr", f"{when}: optimizer '{cfg_o.name}' steps with lr {sorted(set(lrs))} but agent.{wpr.lr_name} = {lr_now}",
+            w.ctx.report(f"{cls_prefix}/optimizer_stale_lr", f"{when}: optimizer '{cfg_o.name}' steps with lr {sorted(set(lrs))} but agent.{own} = {lr_now}",
                          optimizer=cfg_o.name, **w.loc)
 
 
@@ -691,6 +697,7 @@ def gen_c06(rng: random.Random, tier: str) -> Dict[str, Any]:
     cfg = A.gen_agent_cfg(rng)
     cfg["hp"] = rng.choice(["shared", "shared", "private"])
     cfg["hp_spec"] = rng.choice(["default", "wide", "int_stuck", "at_bounds", "random", "random"])
+    cfg["same_lr"] = cfg["batch_size"] in (4, 5)  # (derived, not drawn) actor and critic learning rate are one float object
     cfg["learn_step"] = 2  # inside every configured learn_step range
     if cfg["hp_spec"] == "random":
         # "arbitrary min, max, shrink and grow factors": ranges around the current value, factors on either side of 1 (a shrink factor
@@ -753,7 +760,7 @@ def _c06_hp(cfg):
         kw[lr_names[0]] = RLParameter(min=cfg["lr"] * 0.9, max=cfg["lr"] * 1.5)
     elif spec == "random":
         r = cfg["hp_rand"]
-        for n_, key, cur in zip(lr_names, ("lr", "lr2"), (cfg["lr"], cfg["lr"] * 2)):
+        for n_, key, cur in zip(lr_names, ("lr", "lr2"), (cfg["lr"], cfg["lr"] * (1 if cfg.get("same_lr") else 2))):
             a, b, sh, gr = r[key]
             kw[n_] = RLParameter(min=cur * a, max=cur * b, shrink_factor=sh, grow_factor=gr)
         d, u, sh, gr = r["bs"]
@@ -763,7 +770,8 @@ def _c06_hp(cfg):
         kw["batch_size"] = RLParameter(min=lo_, max=hi_, dtype=int, shrink_factor=sh, grow_factor=gr)
     else:  # at_bounds: current value equals min or max
         for n_ in lr_names:
-            kw[n_] = RLParameter(min=cfg["lr"] * (2 if n_ == "lr_critic" else 1), max=cfg["lr"] * (2 if n_ == "lr_critic" else 1) * 1.1)
+            k_ = 2 if (n_ == "lr_critic" and not cfg.get("same_lr")) else 1
+            kw[n_] = RLParameter(min=cfg["lr"] * k_, max=cfg["lr"] * k_ * 1.1)
         kw["batch_size"] = RLParameter(min=1, max=cfg["batch_size"], dtype=int)
     return HyperparameterConfig(**kw)
 
@@ -951,6 +959,7 @@ def gen_c02(rng: random.Random, tier: str) -> Dict[str, Any]:
     cfg = A.gen_agent_cfg(rng)
     if cfg["hp"] == "none":
         cfg["hp"] = "private"
+    cfg["same_lr"] = cfg["batch_size"] in (4, 5)  # (derived, not drawn: the case stream stays what it was) actor and critic learning rate are one float object
     ops = []
     mode = rng.choice(["single_kind", "mixed", "mixed", "no_elite"])
     first = True
